@@ -215,7 +215,10 @@ def gen_multi_unit(sc, sidecar_path, repo):
             params += ['sctl: &mut SctlModel<%s>' % tout] + ['%s: %s' % (p, ptypes[k]) for k, p in enumerate(pn)]
         if not is_helper:
             params += ['Ghost(h): Ghost<%s>' % hist_t] + list(extra_params or []) + [subst(g) for g in sc.get('ghost_params', [])]
-        req = ['old(sctl).wf()'] + ([] if is_helper else [subst(x) for x in sc.get('requires_all', [])]) + [subst(x) for x in hc.get('requires', [])]
+        # single-upstream discipline (prelude: SctlModel.single): opted into by `single_upstream = true`; every other multi-input unit
+        # states that it does NOT follow it, so that subscribe_inner's `single ==> no upstream registered` is vacuous for it
+        disc = 'old(sctl).single@' if sc.get('single_upstream') else '!old(sctl).single@'
+        req = ['old(sctl).wf()', disc] + ([] if is_helper else [subst(x) for x in sc.get('requires_all', [])]) + [subst(x) for x in hc.get('requires', [])]
         ens = ['step_safe(old(sctl), final(sctl))'] + [subst(x) for x in hc.get('ensures', [])]
         body_txt = insert_loop_invariants(ex.text, [subst(x) for x in hc.get('invariants', [])], hc.get('for_names'), hc.get('loop_kinds'))
         header = '// extracted: %s chars %d..%d (line %d) sha256=%s\n// replacements: %s\n' % (
@@ -282,7 +285,8 @@ def gen_multi_unit(sc, sidecar_path, repo):
             except NotExtractable as e:
                 raise UnitError('not_extractable', '%s_start: %s' % (op, e))
             params0 = ['%s: %s' % (c, t) for c, t in scap.items()] + ['sctl: &mut SctlModel<%s>' % tout]
-            req0 = ['old(sctl).wf()', 'old(sctl).sub@', 'old(sctl).out@ =~= Seq::<Ev<%s>>::empty()' % tout, 'old(sctl).aux@ =~= Seq::<int>::empty()'] + st_c.get('requires', [])
+            req0 = ['old(sctl).wf()', ('old(sctl).single@' if sc.get('single_upstream') else '!old(sctl).single@'), 'old(sctl).sub@', 'old(sctl).out@ =~= Seq::<Ev<%s>>::empty()' % tout, 'old(sctl).aux@ =~= Seq::<int>::empty()',
+                    'old(sctl).ups@ =~= Set::<int>::empty()'] + st_c.get('requires', [])    # the controller has just been created
             f0 = '// extracted (start): %s chars %d..%d (line %d) sha256=%s\n// replacements: %s\nfn %s_start(%s)\n    requires\n%s    ensures\n%s{\n    let _unit: () = /*BEGIN-EXTRACTED*/ { %s; } /*END-EXTRACTED*/;\n%s}\n' % (
                 sc['file'], ex0.span[0], ex0.span[1], rxprep.line_of(src, ex0.span[0]), ex0.sha256, json.dumps(ex0.replacements),
                 op, ', '.join(params0), _fmt_list(req0), _fmt_list(st_c.get('ensures', [])), ex0.text,
